@@ -131,7 +131,7 @@ class Replayer:
                 m.run_step(h["k"])
             elif op == "Run":
                 m._calls, m._handled, m._times, m._collect_times = [], [], [], []
-                m.run_specs(h["start"], h["stop"], h["dt100"] / 100.0)
+                m.run_specs(h["start"], h["stop"], h["dt100"] / UNIT[0])
                 m.run(collect_data=h["collect"])
             else:
                 return [("unknown op", op, None)]
@@ -144,7 +144,7 @@ class Replayer:
             if "handled" in parts:
                 bad += cmp_handled(h["handled"], m._handled, h.get("gone", ()))
                 if "estats" in h:       # the data collector counts exactly the events that were delivered in this step
-                    t = h["t100"] / 100.0
+                    t = h["t100"] / UNIT[0]
                     got = {}
                     for k, v in m.data_collector.event_statistics.items():
                         if abs(k - t) < 1e-9:
@@ -156,10 +156,10 @@ class Replayer:
                 e_c, g_c = _strip(h["calls"], h), _strip(m._calls, h)
                 if e_c != g_c:
                     bad.append(("callback order in step %d" % h["k"], e_c, g_c))
-                if len(m._times) != 1 or not math.isclose(m._times[0], h["t100"] / 100.0, abs_tol=1e-9):
-                    bad.append(("time of step %d" % h["k"], h["t100"] / 100.0, m._times))
+                if len(m._times) != 1 or not math.isclose(m._times[0], h["t100"] / UNIT[0], abs_tol=1e-9):
+                    bad.append(("time of step %d" % h["k"], h["t100"] / UNIT[0], m._times))
             if "stats" in parts:
-                bad += cmp_stats(h["stats"], A.stats_at(m, h["t100"] / 100.0, self.types), self.types, "t=%s" % (h["t100"] / 100.0))
+                bad += cmp_stats(h["stats"], A.stats_at(m, h["t100"] / UNIT[0], self.types), self.types, "t=%s" % (h["t100"] / UNIT[0]))
         if op == "Run":
             if "handled" in parts:
                 bad += cmp_handled(h["handled"], m._handled, [g for r in h["rounds"] for g in r.get("gone", ())])
@@ -178,20 +178,24 @@ class Replayer:
                     got_calls = m._calls
                 if got_calls != exp_calls:
                     bad.append(("callback order of run", exp_calls[:80], got_calls[:80]))
-                exp_t = [r["t100"] / 100.0 for r in h["rounds"]]
+                exp_t = [r["t100"] / UNIT[0] for r in h["rounds"]]
                 if len(m._times) != len(exp_t) or any(not math.isclose(a, b, abs_tol=1e-9) for a, b in zip(m._times, exp_t)):
                     bad.append(("times of run", exp_t, m._times))
-                exp_keys = [s["t100"] / 100.0 for s in h["stats"]]
+                exp_keys = [s["t100"] / UNIT[0] for s in h["stats"]]
                 got_keys = sorted(m.statistics().keys())
                 if len(got_keys) != len(exp_keys) or any(not math.isclose(a, b, abs_tol=1e-9) for a, b in zip(got_keys, exp_keys)):
                     bad.append(("statistics keys of run", exp_keys, got_keys))
             if "stats" in parts:
                 for s in h["stats"]:
-                    bad += cmp_stats(s["stats"], A.stats_at(m, s["t100"] / 100.0, self.types), self.types, "t=%s" % (s["t100"] / 100.0))
+                    bad += cmp_stats(s["stats"], A.stats_at(m, s["t100"] / UNIT[0], self.types), self.types, "t=%s" % (s["t100"] / UNIT[0]))
         return bad
 
 
-def replay(hist, types, dt100, default_v, parts, spawn=None, max_ids=None):
+UNIT = A.UNIT
+
+
+def replay(hist, types, dt100, default_v, parts, spawn=None, max_ids=None, unit=100):
+    UNIT[0] = float(unit)
     """returns None if the whole history conforms, else dict describing the first mismatch"""
     r = Replayer(types, dt100, default_v, spawn, max_ids or 10 ** 9)
     for i, h in enumerate(hist):
